@@ -10,13 +10,13 @@ Open Scope string_scope.
 Theorem C06_rows_are_alone_results : forall O db ban fuel t tmsg ins rows st,
   run O db ban fuel t tmsg ins = Done (rows, st) ->
   Forall2 (fun s r => exists r1, alone O db ban fuel t tmsg s = Done r1 /\ r = set_rid r1 (rid r))
-          (admitted O ins) rows.
+          (kept_inputs O ins) rows.
 Proof. exact run_rows_are_alone_results. Qed.
 
 (* hence: same reaction in two batches (any other rows, any order, any batch size) => same row *)
 Theorem C06_row_independent_of_batch : forall O db ban fuel t tmsg ins1 ins2 rows1 rows2 st1 st2 s i j r1 r2,
   run O db ban fuel t tmsg ins1 = Done (rows1, st1) -> run O db ban fuel t tmsg ins2 = Done (rows2, st2) ->
-  nth_error (admitted O ins1) i = Some s -> nth_error (admitted O ins2) j = Some s ->
+  nth_error (kept_inputs O ins1) i = Some s -> nth_error (kept_inputs O ins2) j = Some s ->
   nth_error rows1 i = Some r1 -> nth_error rows2 j = Some r2 ->
   set_rid r1 0 = set_rid r2 0.
 Proof. exact run_row_independent_of_batch. Qed.
